@@ -220,7 +220,7 @@ def paged_contract(p: Paged):
     )
     # the loop under the invariant is found by what it iterates (self.<field>, possibly through enumerate / a local alias),
     # not by its position in the source
-    c_.loop_finder = lambda ex, fnode, node: spec_ if isinstance(node, ast.For) and iterates(fnode, node.iter, ("self", p.field)) else None
+    c_.loop_finder = lambda ex, fnode, node: with_counters(spec_, node) if isinstance(node, ast.For) and iterates(fnode, node.iter, ("self", p.field)) else None
     return c_
 
 
@@ -235,6 +235,63 @@ def _single_def(fnode, name):
         elif isinstance(n, (ast.AugAssign,)) and isinstance(n.target, ast.Name) and n.target.id == name:
             return None
     return defs[0] if len(defs) == 1 else None
+
+
+def counters_of(node):
+    """{name: step}: locals that the loop body increments by a constant exactly once per iteration (an unconditional top-level
+    `x += c` / `x = x + c`, no other store to x in the body, not the loop target)"""
+    out = {}
+    if not isinstance(node, (ast.For, ast.While)):
+        return out
+    stores = {}
+    for b in node.body:
+        for n in ast.walk(b):
+            if isinstance(n, ast.Name) and isinstance(n.ctx, ast.Store):
+                stores[n.id] = stores.get(n.id, 0) + 1
+    targets = {n.id for n in ast.walk(node.target) if isinstance(n, ast.Name)} if isinstance(node, ast.For) else set()
+    for b in node.body:
+        name, step = None, None
+        if isinstance(b, ast.AugAssign) and isinstance(b.target, ast.Name) and isinstance(b.op, (ast.Add, ast.Sub)) \
+                and isinstance(b.value, ast.Constant) and isinstance(b.value.value, int) and not isinstance(b.value.value, bool):
+            name, step = b.target.id, (b.value.value if isinstance(b.op, ast.Add) else -b.value.value)
+        elif isinstance(b, ast.Assign) and len(b.targets) == 1 and isinstance(b.targets[0], ast.Name) and isinstance(b.value, ast.BinOp) \
+                and isinstance(b.value.op, ast.Add):
+            x = b.targets[0].id
+            l, r = b.value.left, b.value.right
+            for u, v in ((l, r), (r, l)):
+                if isinstance(u, ast.Name) and u.id == x and isinstance(v, ast.Constant) and isinstance(v.value, int) and not isinstance(v.value, bool):
+                    name, step = x, v.value
+        if name is not None and stores.get(name) == 1 and name not in targets:
+            out[name] = step
+    return out
+
+
+def with_counters(spec, node):
+    """LoopSpec whose invariant also states the induction variables of `node` (cached per node)"""
+    cs = counters_of(node)
+    if not cs:
+        return spec
+    cache = spec.__dict__.setdefault("_by_node", {})
+    if id(node) in cache:
+        return cache[id(node)]
+    base = spec.inv
+
+    def inv(lc, base=base, cs=cs):
+        r = base(lc)
+        extra = []
+        for name, step in cs.items():
+            cur, ent = lc.st.lookup(name), lc.entry.lookup(name)
+            if isinstance(cur, VInt) and isinstance(ent, VInt) and lc.i is not None:
+                extra.append((f"counter.{name}", ops.int_term(cur) == ops.int_term(ent) + step * lc.i))
+        if not extra:
+            return r
+        if isinstance(r, Conj):
+            out = type(r)(list(r) + extra, defs=r.defs) if hasattr(r, "defs") else Conj(list(r) + extra)
+            return out
+        return Conj([("base", r)] + extra)
+    sp = LoopSpec(inv=inv, label=spec.label)
+    cache[id(node)] = sp
+    return sp
 
 
 def iterates(fnode, expr, what, depth=0):
@@ -512,11 +569,11 @@ def build_slides_contract():
         if not isinstance(node, ast.For):
             return None
         if iterates(fnode, node.iter, ("name", "slides_texts")):
-            return outer_spec
+            return with_counters(outer_spec, node)
         outer = [n for n in ast.walk(fnode) if isinstance(n, ast.For) and iterates(fnode, n.iter, ("name", "slides_texts"))]
         if len(outer) == 1 and any(x is node for x in ast.walk(outer[0])) and isinstance(outer[0].target, ast.Tuple) \
                 and isinstance(outer[0].target.elts[-1], ast.Name) and iterates(fnode, node.iter, ("name", outer[0].target.elts[-1].id)):
-            return inner_spec
+            return with_counters(inner_spec, node)
         return None
 
     c_ = FnContract(
@@ -572,7 +629,7 @@ def distribute_images_contract():
     def numbered(c):
         o = c.st.obj(c.args["content"].ref)
         if o.kind != "obj" or not isinstance(o.data.get("slides"), VRef) or c.st.obj(o.data["slides"].ref).kind != "alist":
-            return z3.BoolVal(False)
+            raise X.Unsupported("content.slides is no longer an abstract list of slides: the clause cannot be stated over this state")
         return slides_numbered(c.st.obj(o.data["slides"].ref).data)
 
     def p_images():
@@ -700,26 +757,30 @@ def idref_of(e):
     return z3.If(ET.HAS_ATTR(e, _IDREF), ET.ATTR(e, _IDREF), z3.StringVal(""))
 
 
-# CNT_IDREF(e, tag, i): number of the first i `tag` children of e that carry a non-empty idref.  Declared uninterpreted;
-# its definition by primitive recursion is supplied as ground instances where an invariant is assumed (RecFunction made
-# trivial VCs time out here, as recorded in ENGINE.md for C10/C16).
-CNT_IDREF = fun("cnt_idref", ET.ELEM, S, I, I)
+def keep_idref(e, tag):
+    """keep predicate of the spine filter as a lambda array: the k-th `tag` child of e carries a non-empty idref"""
+    return z3.Lambda([K], z3.Length(idref_of(ET.FA_AT(e, tag, K))) > 0)
+
+
+def CNT_IDREF(e, tag, i):
+    """number of the first i `tag` children of e that carry a non-empty idref (generic counting function of c03_exec over the
+    keep predicate; its definition by primitive recursion is supplied as ground instances where an invariant is assumed)"""
+    return X.COUNT_TRUE(keep_idref(e, tag), i)
 
 
 def cnt_idref_def(e, tag, j):
-    return CNT_IDREF(e, tag, j) == z3.If(j <= 0, 0, CNT_IDREF(e, tag, j - 1) +
-                                         z3.If(idref_of(ET.FA_AT(e, tag, j - 1)) != z3.StringVal(""), 1, 0))
+    return X.count_true_def(keep_idref(e, tag), j)
 
 
 def spine_is_filtered(S_: VSeq, e, tag, upto, prefix=""):
     """S_ == [idref(x) for x in findall(e, tag)[:upto] if idref(x)]  (order preserving, complete), as
     count + position-of-every-kept-item + positions increasing."""
     k = z3.Int("k!sp")
-    kept = idref_of(ET.FA_AT(e, tag, k)) != z3.StringVal("")
+    kept = z3.Length(idref_of(ET.FA_AT(e, tag, k))) > 0
     rng = z3.And(k >= 0, k < upto)
     from contracts.c16_exec import ConjA
     if not isinstance(S_.elem(k), VStr):       # the list no longer holds strings only (e.g. rebuilt from an unknown source)
-        return Conj([(prefix + "count", z3.BoolVal(False)), (prefix + "order", z3.BoolVal(False)), (prefix + "items", z3.BoolVal(False))])
+        raise X.Unsupported("the spine list no longer holds strings only: the clause cannot be stated over this state")
     return ConjA([
         (prefix + "count", z3.And(S_.length == CNT_IDREF(e, tag, upto), S_.length >= 0)),
         (prefix + "order", z3.ForAll([k], z3.Implies(z3.And(rng, kept), z3.And(CNT_IDREF(e, tag, k) >= 0, CNT_IDREF(e, tag, k) < CNT_IDREF(e, tag, upto))),
@@ -764,13 +825,13 @@ def parse_spine_contract():
             return z3.And(out)
         return f
 
-    def inv_for(tag):
+    def inv_for(tag, recv="spine_elem"):
         def inv(lc):
             me = lc.entry.frames[0].env["self"]
             S_ = lc.st.obj(lc.st.obj(me.ref).data["_spine"].ref).data
-            e = lc.st.lookup("spine_elem")
+            e = lc.st.lookup(recv)
             if not isinstance(e, VExt):
-                return z3.BoolVal(False)
+                raise X.Unsupported("the spine element is not an abstract element here: the invariant cannot be stated over this state")
             return spine_is_filtered(S_, e.t, tag, lc.i)
         return inv
 
@@ -784,15 +845,24 @@ def parse_spine_contract():
                 out.append(cnt_idref_def(e, t, z3.IntVal(0)))
         return z3.And(out)
 
-    sp1, sp2 = LoopSpec(inv=inv_for(T_REF), label="itemrefs"), LoopSpec(inv=inv_for(T_REF_ANY), label="itemrefs-any-namespace")
+
+    by_node = {}
 
     def finder(ex, fnode, node):
         if not isinstance(node, ast.For):
             return None
-        if iterates(fnode, node.iter, ("text", "opf:itemref")):
-            return sp1
-        if iterates(fnode, node.iter, ("text", "{*}itemref")):
-            return sp2
+        for text, tag, label in (("opf:itemref", T_REF, "itemrefs"), ("{*}itemref", T_REF_ANY, "itemrefs-any-namespace")):
+            if iterates(fnode, node.iter, ("text", text)):
+                if id(node) not in by_node:
+                    # the element whose children are walked: the receiver of the findall call (whatever the local is called)
+                    call = node.iter
+                    while isinstance(call, ast.Call) and not (isinstance(call.func, ast.Attribute) and call.func.attr in ("findall", "iter", "iterfind")):
+                        call = call.args[0] if call.args else None
+                    if isinstance(call, ast.Name):
+                        call = _single_def(fnode, call.id)
+                    recv = call.func.value.id if isinstance(call, ast.Call) and isinstance(call.func, ast.Attribute) and isinstance(call.func.value, ast.Name) else "spine_elem"
+                    by_node[id(node)] = with_counters(LoopSpec(inv=inv_for(tag, recv), label=label), node)
+                return by_node[id(node)]
         return None
 
     from pyvc.verify import p_opt
@@ -809,6 +879,9 @@ def parse_spine_contract():
         note="reading order == idrefs of <spine>/<itemref> in document order; assumed: xml.etree findall returns direct children in document order",
     )
     c_.loop_finder = finder
+    c_.loop_optional = True      # without the loops (filter written as a comprehension / in a helper) the ensures follow from PY-COMP facts
+    c_.loop_obligations = [(k_, f"{lab}.{cj}") for lab in ("itemrefs", "itemrefs-any-namespace") for k_ in ("inv-init", "inv-preserve")
+                           for cj in ("count", "order", "items")]
     return c_
 
 
@@ -864,10 +937,14 @@ class C03Executor(ET.ETreeMixin, X.UnitsExecutor):
         st.assume(OVER)
         return r
 
+    filter_facts = True      # filtered comprehensions over symbolic sequences carry their order-preserving characterisation
+
     def symbolic_for(self, s, st, it):
-        spec = self.loop_spec(s)
-        if spec is None or spec.inv is None:
-            st.assume(OVER)
+        # a loop cut (with or without an invariant) replaces the loop-carried state by an arbitrary one: a VC refuted behind it shows
+        # that the INVARIANT is not inductive / too weak for this code, not that the code is wrong -> candidate only (`unknown`),
+        # the native replayer decides
+        st.assume(OVER)
+        self.tag_havoc(st, "state after a loop cut", s)
         return super().symbolic_for(s, st, it)
 
     def s_While(self, s, st):
@@ -1118,6 +1195,13 @@ def _make_safe(c):
             # helper, became a while loop, ...) is outside what this contract can follow: the FUNCTION is OUT-OF-SUBSET and the
             # native replayer decides
             fnode = cx.ex.module.functions.get(c.target.split("::")[1]) if cx.ex.contract is c else None
+            if fnode is not None and not _has_contract_loop(cx.ex, c, fnode) and getattr(c, "loop_optional", False):
+                # this version of the function has no such loop and does not need one: the invariant obligations are proof steps
+                # of the loop form only.  Their ids are kept (trivially true, marked) so that the obligation set does not depend on
+                # how the filter is written; the claims themselves (ensures) are discharged as always.
+                for kind_, lab_ in getattr(c, "loop_obligations", []):
+                    cx.ex.add_vc(kind_, lab_, [], z3.BoolVal(True), note="not applicable: no loop in this version of the function (ensures proved without it)")
+                return h0(cx) if h0 is not None else z3.BoolVal(True)
             if fnode is not None and not _has_contract_loop(cx.ex, c, fnode):
                 from pyvc.ops import Unsupported
                 raise Unsupported("the loop over the source sequence, for which the invariant is stated, was not found in this function")
